@@ -214,7 +214,7 @@ fn c12_jpeg_sniffer_total() {
     std::mem::forget(r);
 }
 
-// @harness prop=C12 tier=thorough expect=pass timeout=600
+// @harness prop=C12 tier=quick expect=pass timeout=600
 // @units metadata::PictureMetrics::try_jpeg
 // @bound FF D8 FF E0 + segment length pinned to 1 (illegal) and to 4, arbitrary payload, then FF C0 and an arbitrary start-of-frame body
 // @oracle a segment length below 2 is an error; otherwise the frame header after the skipped segment is used; never a panic other than the known colour-depth product
@@ -479,3 +479,9 @@ fn c11_streaminfo_roundtrip_twin() {
         }
     }
 }
+
+// (C10: update_file on a concrete 58-byte file - fLaC + STREAMINFO + PADDING(8)
+// + 4 symbolic audio bytes, edit = insert an 8-byte APPLICATION block, real
+// BufReader/BufWriter/BitReader/BitWriter at a fully concrete layout - did not
+// finish in 1500 s; the size arithmetic lives in functions nested inside
+// update_file and cannot be called on its own)
